@@ -869,4 +869,37 @@ func TestC13(t *testing.T) {
 		}
 		run(kindSets[ki], seq, []string{kn[ki], "random"})
 	}
+	// unusual caller metadata on the open x envelopes addressed to that call's id (also when the open FAILED: Guess) while
+	// nobody reads them x a probe call afterwards x Close / read failure: no call may hang, before or after the close
+	seen := map[string]bool{}
+	for _, md := range mdKinds {
+		if seen[md] {
+			continue
+		}
+		seen[md] = true
+		for nenv := 0; nenv <= 2; nenv++ {
+			for _, first := range []string{"stream", "unary"} {
+				if idx%nsh != shard {
+					idx++
+					continue
+				}
+				acts := []CAct{{Op: first, B: 41, MD: md}}
+				for j := 0; j < nenv; j++ {
+					acts = append(acts, CAct{Op: "deliver", Env: &EnvSpec{Call: 0, Hdr: "ok:0", Body: i64(int64(4100 + j)), Trl: "none", Guess: true}})
+				}
+				acts = append(acts, CAct{Op: "unary", B: 42, MD: "none"},
+					CAct{Op: "deliver", Env: &EnvSpec{Call: 1, Hdr: "ok:0", Body: i64(4200), Trl: "ok:0"}},
+					CAct{Op: "stream", MD: md}, CAct{Op: "close"}, CAct{Op: "unary", B: 43, MD: md}, CAct{Op: "failread"})
+				if first == "stream" {
+					acts = append(acts, CAct{Op: "recv", C: 0}, CAct{Op: "recv", C: 0}, CAct{Op: "recv", C: 0})
+				}
+				acts = append(acts, CAct{Op: "unary", B: 44, MD: "none"})
+				sc := clientScenario{Acts: acts, WithStats: idx%2 == 0, Tags: []string{"caller-metadata:" + md, fmt.Sprintf("envelopes-to-the-open=%d", nenv), "first:" + first}}
+				if want(idx) {
+					runClientScenarioAs(t, idx, "c13", sc, em, "C13Step", nil)
+				}
+				idx++
+			}
+		}
+	}
 }
